@@ -13,6 +13,13 @@ fn checked_i64(res: Option<i64>, op: BinOp) -> Result<Primitive, OperatorError> 
         .ok_or_else(|| OperatorError::overflow(op, PrimitiveKind::Integer))
 }
 
+/// Narrows an exact wide result back to i64. Mixed signed/unsigned operands are widened to
+/// i128 (where `+`, `-` and `*` of 64-bit values cannot overflow) instead of being cast with
+/// `as i64`, so a value that does not fit is reported as `Overflow` instead of silently wrapping.
+fn wide_i64(res: i128, op: BinOp) -> Result<Primitive, OperatorError> {
+    checked_i64(i64::try_from(res).ok(), op)
+}
+
 /// Wraps a checked u64 result, turning overflow (`None`) into an `Overflow` error.
 fn checked_u64(res: Option<u64>, op: BinOp) -> Result<Primitive, OperatorError> {
     res.map(Primitive::PositiveInteger)
@@ -236,9 +243,9 @@ impl ApplyOp for i64 {
                 ),
             },
             Primitive::PositiveInteger(n) => match op {
-                BinOp::Add => checked_i64(self.checked_add(*n as i64), BinOp::Add),
-                BinOp::Sub => checked_i64(self.checked_sub(*n as i64), BinOp::Sub),
-                BinOp::Mul => checked_i64(self.checked_mul(*n as i64), BinOp::Mul),
+                BinOp::Add => wide_i64(*self as i128 + *n as i128, BinOp::Add),
+                BinOp::Sub => wide_i64(*self as i128 - *n as i128, BinOp::Sub),
+                BinOp::Mul => wide_i64(*self as i128 * *n as i128, BinOp::Mul),
                 BinOp::Div => checked_div(*self as f64, *n as f64),
                 op @ (BinOp::And | BinOp::Or | BinOp::Xor | BinOp::Implies | BinOp::Iff) => Err(
                     OperatorError::unsupported_bin_operation(op, PrimitiveKind::Integer),
@@ -262,7 +269,7 @@ impl ApplyOp for i64 {
     }
     fn apply_unary_op(&self, op: UnOp) -> Result<Self::Target, Self::Error> {
         match op {
-            UnOp::Neg => Ok(Primitive::Integer(-self)),
+            UnOp::Neg => checked_i64(self.checked_neg(), BinOp::Sub),
             UnOp::Not => Err(OperatorError::unsupported_un_operation(
                 op,
                 PrimitiveKind::Integer,
@@ -297,7 +304,7 @@ impl ApplyOp for u64 {
         match to {
             Primitive::PositiveInteger(n) => match op {
                 BinOp::Add => checked_u64(self.checked_add(*n), BinOp::Add),
-                BinOp::Sub => checked_i64((*self as i64).checked_sub(*n as i64), BinOp::Sub),
+                BinOp::Sub => wide_i64(*self as i128 - *n as i128, BinOp::Sub),
                 BinOp::Mul => checked_u64(self.checked_mul(*n), BinOp::Mul),
                 BinOp::Div => checked_div(*self as f64, *n as f64),
                 op @ (BinOp::And | BinOp::Or | BinOp::Xor | BinOp::Implies | BinOp::Iff) => Err(
@@ -305,9 +312,9 @@ impl ApplyOp for u64 {
                 ),
             },
             Primitive::Integer(n) => match op {
-                BinOp::Add => checked_i64((*self as i64).checked_add(*n), BinOp::Add),
-                BinOp::Sub => checked_i64((*self as i64).checked_sub(*n), BinOp::Sub),
-                BinOp::Mul => checked_i64((*self as i64).checked_mul(*n), BinOp::Mul),
+                BinOp::Add => wide_i64(*self as i128 + *n as i128, BinOp::Add),
+                BinOp::Sub => wide_i64(*self as i128 - *n as i128, BinOp::Sub),
+                BinOp::Mul => wide_i64(*self as i128 * *n as i128, BinOp::Mul),
                 BinOp::Div => checked_div(*self as f64, *n as f64),
                 op @ (BinOp::And | BinOp::Or | BinOp::Xor | BinOp::Implies | BinOp::Iff) => Err(
                     OperatorError::unsupported_bin_operation(op, PrimitiveKind::PositiveInteger),
@@ -324,7 +331,7 @@ impl ApplyOp for u64 {
             },
             Primitive::Boolean(n) => match op {
                 BinOp::Add => checked_u64(self.checked_add(*n as u64), BinOp::Add),
-                BinOp::Sub => checked_i64((*self as i64).checked_sub(*n as i64), BinOp::Sub),
+                BinOp::Sub => wide_i64(*self as i128 - *n as i128, BinOp::Sub),
                 BinOp::Mul => checked_u64(self.checked_mul(*n as u64), BinOp::Mul),
                 BinOp::Div => checked_div(*self as f64, *n as u8 as f64),
                 op @ (BinOp::And | BinOp::Or | BinOp::Xor | BinOp::Implies | BinOp::Iff) => Err(
@@ -340,7 +347,7 @@ impl ApplyOp for u64 {
     }
     fn apply_unary_op(&self, op: UnOp) -> Result<Self::Target, Self::Error> {
         match op {
-            UnOp::Neg => Ok(Primitive::Integer(-(*self as i64))),
+            UnOp::Neg => wide_i64(-(*self as i128), BinOp::Sub),
             UnOp::Not => Err(OperatorError::unsupported_un_operation(
                 op,
                 PrimitiveKind::PositiveInteger,
